@@ -308,7 +308,10 @@ func (c *VCtx) applyContract(fr *Frame, st *State, cc *ssa.CallCommon, ct *FuncC
 	}
 	sc2 := c.contractScope(callee, ct, fv, args, st, pre, res)
 	for _, e := range ct.Ensures {
-		c.fact(Implies(st.pc, c.translateBool(sc2, e.E)))
+		// postconditions that talk about the callee's local variables are meaningful only inside the callee
+		if t := c.tryTranslate(sc2, e.E); t != nil {
+			c.fact(Implies(st.pc, t))
+		}
 	}
 	return res
 }
@@ -684,4 +687,20 @@ func (c *VCtx) callbackMayUseMonitor(st *State, args []Val) {
 			}
 		}
 	}
+}
+
+// tryTranslate translates a clause; nil if it mentions names that do not exist in this scope.
+func (c *VCtx) tryTranslate(sc *Scope, e Expr) (t *Term) {
+	nd, nf := len(c.decls), len(c.facts)
+	defer func() {
+		if r := recover(); r != nil {
+			if _, ok := r.(unsupported); ok {
+				c.decls, c.facts = c.decls[:nd], c.facts[:nf]
+				t = nil
+				return
+			}
+			panic(r)
+		}
+	}()
+	return c.translateBool(sc, e)
 }
